@@ -30,7 +30,7 @@ def run_one(args):
   try:
     open(path, 'w').write(src)
     p = subprocess.run(
-        '/venv/bin/python -m pytest -q -x -p no:cacheprovider --timeout=120 '
+        '/venv/bin/python -m pytest -q -p no:cacheprovider --timeout=120 '
         '--continue-on-collection-errors -n 4 2>&1 | tail -1', shell=True,
         cwd=wt, capture_output=True, text=True, timeout=900)
     ok = '307 passed' in p.stdout
